@@ -10,6 +10,7 @@ import Cgp.Drive.Gw
 import Cgp.Drive.Tk
 import Cgp.Drive.Gs
 import Cgp.Drive.Op
+import Cgp.Drive.Up
 open Cgp Cgp.Tok
 
 inductive World where
@@ -18,6 +19,7 @@ inductive World where
   | tk (s : Cgp.Drive.Tk.TkS)
   | gs (s : Cgp.Drive.Gs.GsS)
   | op (s : Cgp.Drive.Op.OpS)
+  | up (s : Cgp.Drive.Up.UpS)
 
 structure Out where
   obs : String
@@ -30,6 +32,7 @@ def World.step (w : World) (t : List String) (implObs : String) : World × Out :
   | .tk s => let (s', o) := Cgp.Drive.Tk.step s t; (.tk s', ⟨o.obs, o.kind⟩)
   | .gs s => let (s', o) := Cgp.Drive.Gs.step s t implObs; (.gs s', ⟨o.obs, o.kind⟩)
   | .op s => let (s', o) := Cgp.Drive.Op.step s t; (.op s', ⟨o.obs, o.kind⟩)
+  | .up s => let (s', o) := Cgp.Drive.Up.step s t implObs; (.up s', ⟨o.obs, o.kind⟩)
 
 def World.known : World → List String
   | .none => []
@@ -37,6 +40,7 @@ def World.known : World → List String
   | .tk _ => Cgp.Drive.Tk.known
   | .gs _ => Cgp.Drive.Gs.known
   | .op _ => Cgp.Drive.Op.known
+  | .up _ => Cgp.Drive.Up.known
 
 def newWorld (cluster : String) : World :=
   match cluster with
@@ -44,6 +48,7 @@ def newWorld (cluster : String) : World :=
   | "tk" => .tk {}
   | "gs" => .gs {}
   | "op" => .op {}
+  | "up" => .up {}
   | _ => .none
 
 structure RunAcc where
